@@ -187,6 +187,37 @@ Example array_limit_edge :
   scan_objects small_limits (format false [OArr [OInt 1; OInt 2; OInt 3; OInt 4; OInt 5]]) = Err Malformed.
 Proof. repeat split; vm_compute; reflexivity. Qed.
 
+(* The order of dictionary keys.  The text of a dictionary lists the keys of its non-null entries
+   exactly once each, in strictly increasing order of Dict.SortedKeys (Obj.key_ltb: "Type",
+   "Subtype", then byte-wise lexicographic - bytes_ltb), and the scanned value carries the same
+   key sequence; with format_perm (independence of the order of the entry list) the text is a
+   function of the dictionary as a finite map. *)
+Theorem dict_keys_sorted : forall p sep l, NoDup (map fst l) ->
+  let ks := map fst (sort_entries (fmt_frags p l)) in
+  keys_sorted ks /\ Permutation.Permutation ks (map fst (filter nonnull l)) /\
+  fmt_obj p sep (ODict l) =
+    (kw_ltlt ++ (if p then [cLF] else []) ++ concat (map snd (sort_entries (fmt_frags p l))) ++ kw_gtgt, false) /\
+  exists es, norm (ODict l) = ODict es /\ map fst es = ks.
+Proof. exact dict_keys_sorted_lemma. Qed.
+Print Assumptions dict_keys_sorted.
+
+(* ... at every nesting level: the model scanner keeps the entries in the order of the text, and
+   what it reads from a formatted text has the keys of every dictionary in SortedKeys order
+   (Scan.text_ordered - the check the correspondence applies to the implementation's text). *)
+Theorem scan_text_ordered : forall L p os, wf_list L os = true ->
+  exists vs, scan_objects L (format p os) = Ok (vs, []) /\ forallb text_ordered vs = true.
+Proof. exact scan_text_ordered_lemma. Qed.
+Print Assumptions scan_text_ordered.
+
+(* F01 < F1 < F10 < F2 byte-wise; a text with F2 before F10 is not in SortedKeys order *)
+Example text_ordered_ex :
+  match scan_objects std_limits
+    [60;60; 47;70;48;49; 32;49; 47;70;49; 32;49; 47;70;49;48; 32;49; 47;70;50; 32;49; 62;62] with
+  | Ok (vs, _) => forallb text_ordered vs | Err _ => false end = true /\
+  match scan_objects std_limits [60;60; 47;70;50; 32;49; 47;70;49;48; 32;49; 62;62] with
+  | Ok (vs, _) => forallb text_ordered vs | Err _ => true end = false.
+Proof. vm_compute. split; reflexivity. Qed.
+
 (* OutputOptions.  The formatter model takes the option mask of types.go (constants translated):
    under every mask the text is read back as the values, and setting any of OptDictTypes,
    OptTrimStandardFonts, OptTextStringUtf8, OptContentStream does not change the text written
